@@ -47,6 +47,20 @@ fn real_main() {
     let stuck_s: f64 = std::env::var("VH_STUCK_S").ok().and_then(|x| x.parse().ok()).unwrap_or(120.0);
     rep::watchdog::start(a.out.clone(), stuck_s, a.max_s * 4.0 + 600.0);
     match args[0].as_str() {
+        // self-tests of the stuck-case watchdog (tools/selftest_watchdog.sh): a spinning case must be stopped (exit 3),
+        // a sleeping one must not
+        "wd-selftest-spin" => {
+            rep::watchdog::set(|| "{\"selftest\": \"spin\"}".to_string());
+            let mut x = 0u64;
+            loop {
+                x = std::hint::black_box(x.wrapping_add(1));
+            }
+        }
+        "wd-selftest-sleep" => {
+            rep::watchdog::set(|| "{\"selftest\": \"sleep\"}".to_string());
+            std::thread::sleep(std::time::Duration::from_secs_f64(stuck_s * 3.0));
+            println!("slept");
+        }
         "diff" => c_diff::main(&a),
         "c02" => c02::main(&a),
         "c04" => c04::main(&a),
